@@ -332,6 +332,14 @@ pub fn run(r: &mut Runner) -> &'static str {
                         if let Err(f) = judge(&x, st) {
                             return Some((x, f));
                         }
+                        // and at the other three positions within a 4-byte word, as part of a read buffer
+                        if cut == h.len() {
+                            for k in 1..4usize {
+                                if let Err(f) = crate::engine::in_arena_at(k, &x, |v| judge(v, st)) {
+                                    return Some((x, f));
+                                }
+                            }
+                        }
                     }
                 }
             }
@@ -362,8 +370,10 @@ pub fn run(r: &mut Runner) -> &'static str {
                         x[p1] ^= d1;
                         x[p2] ^= d2;
                         count += 1;
-                        // no input whose first 12 bytes differ from the signature may be accepted
-                        if matches!(imp::v2_parse(&x), Ok(Ok(_))) {
+                        // no input whose first 12 bytes differ from the signature may be accepted, wherever it lies in memory
+                        let k = count as usize % 8;
+                        let accepted = if k == 0 { matches!(imp::v2_parse(&x), Ok(Ok(_))) } else { crate::engine::in_arena_at(k, &x, |v| matches!(imp::v2_parse(v), Ok(Ok(_)))) };
+                        if accepted {
                             let mut scratch = Stats { frozen: true, ..Stats::default() };
                             if let Err(f) = judge(&x, &mut scratch) {
                                 return Some((x, f));
